@@ -76,10 +76,53 @@ def dec (w : Nat) (arg obs : String) : Verdict :=
           | none => none
     { model, spec }
 
+/-- ops: varint.dec2 <hex input> <kind> <limit|-> <prior hex>: two decodes from one reader into one destination
+holding `prior`; with a limit the reader is a LimitedReader. obs: `r1;r2; rest=<hex>` with ri = `ok:<v>:<n>` | `err` -/
+def dec2 (w : Nat) (arg lim obs : String) : Verdict :=
+  match parseHex arg with
+  | none => { model := "bad-arg" }
+  | some input =>
+    let limit : Nat := if lim == "-" then input.length else (lim.toNat?).getD 0
+    let vis := input.take limit
+    let one (s : Stream) : String × Stream :=
+      if w == 32 then
+        let (r, s') := varIntRead s
+        (match r with | .ok (v, n) => s!"ok:{hexOfNat 8 v.toNat}:{n};" | .err => "err;" | .panic => "panic;", s')
+      else
+        let (r, s') := varLongRead s
+        (match r with | .ok (v, n) => s!"ok:{hexOfNat 16 v.toNat}:{n};" | .err => "err;" | .panic => "panic;", s')
+    let (o1, s1) := one (Stream.ofBytes vis)
+    let (o2, s2) := one s1
+    let model := s!"{o1}{o2} rest={hexOfBytes (s2.flat ++ input.drop limit)}"
+    -- spec: nothing past the limit is touched; two minimal encodings inside the limit come back as the two values
+    let toks := obs.splitOn " "
+    let implRest := (kv toks "rest").bind parseHex
+    let spec : Option String :=
+      if obs == "panic" then some "decoder panicked" else
+      match implRest with
+      | none => some "unparseable observation"
+      | some ir =>
+        if ir.length + limit < input.length then some "bytes behind the reader's limit were consumed" else
+        match unleb vis with
+        | some (a, r1) =>
+          if a < 2 ^ w && isPrefix (leb a) vis && (leb a).length + r1.length == vis.length then
+            match unleb r1 with
+            | some (b, r2) =>
+              if b < 2 ^ w && isPrefix (leb b) r1 && (leb b).length + r2.length == r1.length then
+                let want := s!"ok:{hexOfNat (w / 4) a}:{(leb a).length};ok:{hexOfNat (w / 4) b}:{(leb b).length}; rest={hexOfBytes (r2 ++ input.drop limit)}"
+                if obs == want then none else some s!"two minimal encodings: expected {want}"
+              else none
+            | none => none
+          else none
+        | none => none
+    { model, spec }
+
 def handle (op : String) (args : List String) (obs : String) : Option Verdict :=
   match op, args with
   | "varint.enc", [a] => some (enc 32 a obs)
   | "varlong.enc", [a] => some (enc 64 a obs)
+  | "varint.dec2", [a, _, l, _] => some (dec2 32 a l obs)
+  | "varlong.dec2", [a, _, l, _] => some (dec2 64 a l obs)
   | "varint.nest", [a, b] => some (nest 32 a b obs)
   | "varlong.nest", [a, b] => some (nest 64 a b obs)
   | "varint.dec", [a, _] => some (dec 32 a obs)
